@@ -17,6 +17,14 @@ def scratch():
     global _scratch
     if _scratch is None:
         base = os.environ.get("VERIF_SCRATCH_BASE", "/tmp")
+        try:                                       # scratch of runs that were killed (no atexit): drop what is older than 12 hours
+            import time
+            for d in os.listdir(base):
+                p = os.path.join(base, d)
+                if d.startswith("verif.") and os.path.isdir(p) and time.time() - os.path.getmtime(p) > 12 * 3600:
+                    shutil.rmtree(p, ignore_errors=True)
+        except OSError:
+            pass
         _scratch = tempfile.mkdtemp(prefix="verif.", dir=base)
         atexit.register(lambda: shutil.rmtree(_scratch, ignore_errors=True))
     return _scratch
